@@ -99,6 +99,9 @@ def lower_expr(n) -> Any:
             if c["kind"] == "NonTypeTemplateParmDecl":
                 return ("ref", c.get("name", "?"))
         return lower_expr(ks[-1]) if ks else ("unknown", k)
+    if k == "FloatingLiteral" and n.get("type", {}).get("qualType", "") in ("float", "const float", "_Float16", "__fp16"):
+        # a single-precision literal (2.0f) drags the arithmetic it takes part in down to float: same effect as an explicit narrowing
+        return ("call", "narrow_float", [("num", n.get("value"))])
     if k in ("IntegerLiteral", "FloatingLiteral"):
         return ("num", n.get("value"))
     if k == "CXXBoolLiteralExpr":
